@@ -72,6 +72,7 @@ func ZZ_S06a_Bulkhead() {
 			zzvrt.Assert(ran == 1, "bulkhead: admitted execution ran the function once")
 			admitted++
 		} else if errors.Is(err, bulkhead.ErrFull) {
+			zzvrt.CtrAdd("errFull", 1)
 			zzvrt.Assert(ran == 0, "bulkhead: a refused execution never runs the function")
 		} else {
 			zzvrt.Assert(i == 0, "bulkhead: only the execution with a cancellable context can fail otherwise")
@@ -80,6 +81,7 @@ func ZZ_S06a_Bulkhead() {
 		}
 	}
 	zzvrt.Quiesce()
+	zzvrt.Assert(zzvrt.CtrGet("full") == zzvrt.CtrGet("errFull"), "events: OnFull fires exactly for the executions rejected as full")
 	if mw == 0 && held == 0 && !cancelling {
 		zzvrt.Assert(admitted >= 1, "bulkhead: with free permits somebody is admitted")
 	}
@@ -98,9 +100,23 @@ func ZZ_S06a_Bulkhead() {
 // S09a: hedge policy, maxHedges 1..2, symbolic delay and attempt durations, cancel conditions.
 func ZZ_S09a_Hedge() {
 	H := 1 + zzvrt.Choose("maxHedges-1", zzvrt.Param("max_hedges", 2))
-	D := symDur("D", 1, 30)
+	// a delay function returning a different symbolic delay for each hedge
+	Ds := make([]time.Duration, H+1)
+	sumD := make([]int64, H+2)
+	for i := 0; i <= H; i++ {
+		Ds[i] = symDur("D", 1, 30)
+		sumD[i+1] = sumD[i] + int64(Ds[i])
+	}
+	D := Ds[0]
+	_ = D
 	cancelOnAny := zzvrt.Choose("cancel-on-any-result", 2) == 1
-	b := hedgepolicy.BuilderWithDelay[int](D).WithMaxHedges(H).OnHedge(func(e failsafe.ExecutionEvent[int]) {
+	b := hedgepolicy.BuilderWithDelayFunc[int](func(e failsafe.ExecutionAttempt[int]) time.Duration {
+		k := zzvrt.CtrAdd("delayCalls", 1) - 1
+		if k > H {
+			k = H
+		}
+		return Ds[k]
+	}).WithMaxHedges(H).OnHedge(func(e failsafe.ExecutionEvent[int]) {
 		zzvrt.CtrAdd("hedges", 1)
 		zzvrt.Assert(e.IsHedge(), "hedge: OnHedge event describes a hedge")
 	})
@@ -122,9 +138,9 @@ func ZZ_S09a_Hedge() {
 			// coordinator's select took the timer first: the attempt was launched before the result was dequeued
 			// but only gets to run after the caller has returned. It must then find itself cancelled.
 			zzvrt.Assert(e.IsCanceled(), "hedge: an attempt that only gets to run after the result was returned finds itself cancelled")
-			zzvrt.Assert(zzvrt.Now()-start == int64(k)*int64(D), "hedge: no attempt is launched after a result has been accepted (except in the timer/result tie)")
+			zzvrt.Assert(zzvrt.Now()-start == sumD[k], "hedge: no attempt is launched after a result has been accepted (except in the timer/result tie)")
 		}
-		zzvrt.Assert(zzvrt.Now()-start >= int64(k)*int64(D), "hedge: hedge k never starts before k delays have elapsed")
+		zzvrt.Assert(zzvrt.Now()-start >= sumD[k], "hedge: hedge k never starts before the first k hedge delays have elapsed")
 		zzvrt.Assert(e.IsHedge() == (k > 0), "stats: IsHedge agrees with the attempt being a hedge")
 		zzvrt.Assert(e.Attempts() >= k+1, "stats: Attempts counts the hedges started so far")
 		zzvrt.Assert(e.Hedges() >= k, "stats: Hedges counts the hedges started so far")
@@ -184,7 +200,7 @@ func b2i(b bool) int64 {
 func ZZ_S08a_CancelRetry() {
 	src := zzvrt.Param("src", -1)
 	if src < 0 {
-		src = zzvrt.Choose("source", 4)
+		src = zzvrt.Choose("source", 5)
 	}
 	D := symDur("retryDelay", 0, 30)
 	c := symDur("cancelAt", 0, 30)
@@ -196,6 +212,10 @@ func ZZ_S08a_CancelRetry() {
 	switch src {
 	case 0:
 		ctx, cancel = context.WithCancel(ctx)
+	case 4:
+		var cc context.CancelCauseFunc
+		ctx, cc = context.WithCancelCause(ctx)
+		cancel = func() { cc(errB) } // cancelled with an application-level cause
 	case 1:
 		ctx, cancel = context.WithTimeout(ctx, c)
 	case 3:
@@ -230,7 +250,7 @@ func ZZ_S08a_CancelRetry() {
 		zzvrt.CtrAdd("fired", 1) // the cancellation has taken effect once Cancel returned
 		r, err = res.Get()
 	} else {
-		if src == 0 {
+		if src == 0 || src == 4 {
 			go func() {
 				zzvrt.Sleep(c)
 				zzvrt.CellSet("firedAt", zzvrt.Now())
@@ -250,7 +270,7 @@ func ZZ_S08a_CancelRetry() {
 		zzvrt.Reach("completed-before-cancel")
 	} else {
 		switch src {
-		case 0:
+		case 0, 4:
 			zzvrt.Assert(errors.Is(err, context.Canceled), "cancel: context cancellation is reported as context.Canceled")
 		case 1:
 			zzvrt.Assert(errors.Is(err, context.DeadlineExceeded), "cancel: context deadline is reported as context.DeadlineExceeded")
@@ -259,7 +279,7 @@ func ZZ_S08a_CancelRetry() {
 		case 3:
 			zzvrt.Assert(errors.Is(err, timeout.ErrExceeded), "cancel: an enclosing Timeout is reported as timeout.ErrExceeded")
 		}
-		if src == 0 || src == 2 {
+		if src == 0 || src == 2 || src == 4 {
 			zzvrt.Assert(zzvrt.CtrGet("startsAfterCancel") <= 1, "cancel: at most one further attempt starts after the cancellation")
 			// cooperating functions take no time: the execution ends at the cancellation instant, no delay is waited out
 			zzvrt.Assert(end == zzvrt.CellGet("firedAt"), "cancel: completes without waiting out the remaining delay")
@@ -292,18 +312,34 @@ func ZZ_S08b_CancelWaits() {
 		inner = bh
 	}
 	rp := retrypolicy.Builder[int]().WithMaxRetries(1).Build()
-	go func() {
-		zzvrt.Sleep(c)
-		zzvrt.CellSet("firedAt", zzvrt.Now())
-		cancel()
-	}()
-	_, err := failsafe.NewExecutor[int](rp, inner).WithContext(ctx).GetWithExecution(func(e failsafe.Execution[int]) (int, error) {
+	fn := func(e failsafe.Execution[int]) (int, error) {
 		zzvrt.CtrAdd("starts", 1)
 		return 0, errA
-	})
+	}
+	var err error
+	viaResult := zzvrt.Choose("source-is-ExecutionResult.Cancel", 2) == 1
+	if viaResult {
+		// the waiting policy is outermost: whatever it returns is what the caller gets
+		res := failsafe.NewExecutor[int](inner, rp).GetWithExecutionAsync(fn)
+		zzvrt.Sleep(c)
+		zzvrt.CellSet("firedAt", zzvrt.Now())
+		res.Cancel()
+		_, err = res.Get()
+	} else {
+		go func() {
+			zzvrt.Sleep(c)
+			zzvrt.CellSet("firedAt", zzvrt.Now())
+			cancel()
+		}()
+		_, err = failsafe.NewExecutor[int](rp, inner).WithContext(ctx).GetWithExecution(fn)
+	}
 	end := zzvrt.Now()
 	zzvrt.Quiesce()
-	zzvrt.Assert(errors.Is(err, context.Canceled), "cancel: a waiting policy observes the cancellation and reports context.Canceled")
+	if viaResult {
+		zzvrt.Assert(errors.Is(err, failsafe.ErrExecutionCanceled), "cancel: ExecutionResult.Cancel during a policy's wait is reported as ErrExecutionCanceled")
+	} else {
+		zzvrt.Assert(errors.Is(err, context.Canceled), "cancel: a waiting policy observes the cancellation and reports context.Canceled")
+	}
 	zzvrt.Assert(end == zzvrt.CellGet("firedAt"), "cancel: a waiting policy does not wait out its delay after cancellation")
 	zzvrt.Assert(zzvrt.CtrGet("starts") == 0, "cancel: the function is not started after the cancellation")
 	zzvrt.Assert(zzvrt.Live() == 0, "leak: no library goroutine left after a cancelled wait")
@@ -362,8 +398,14 @@ func ZZ_S04a_BreakerOpen() {
 // S04b: half-open admits at most the trial capacity and every admitted trial gives its permit back.
 func ZZ_S04b_HalfOpen() {
 	c := 1 + zzvrt.Choose("capacity-1", zzvrt.Param("max_cap", 2))
-	cb := circuitbreaker.Builder[int]().WithFailureThreshold(1).WithSuccessThresholdRatio(uint(c), uint(c)).WithDelay(time.Hour).Build()
-	cb.HalfOpen() // nothing admitted before is in flight
+	delay := symDur("breakerDelay", 1, 30)
+	cb := circuitbreaker.Builder[int]().WithFailureThreshold(1).WithSuccessThresholdRatio(uint(c), uint(c)).WithDelay(delay).Build()
+	if zzvrt.Choose("manual-half-open", 2) == 1 {
+		cb.HalfOpen() // nothing admitted before is in flight
+	} else {
+		cb.Open()
+		zzvrt.Sleep(delay) // the delay elapses (exactly): the next request half-opens the breaker and is itself a trial
+	}
 	n := c + 1
 	for i := 0; i < n; i++ {
 		d := symDur("d", 0, 30)
@@ -386,9 +428,9 @@ func ZZ_S04b_HalfOpen() {
 			}
 			ps = append(ps, cb)
 			failsafe.NewExecutor[int](ps...).GetWithExecution(func(e failsafe.Execution[int]) (int, error) {
-				if cb.IsHalfOpen() {
+				if cb.IsHalfOpen() || cb.IsOpen() {
 					now := zzvrt.CtrAdd("trials", 1)
-					zzvrt.Assert(now <= c || !cb.IsHalfOpen(), "breaker: never more trial executions in flight than the half-open capacity")
+					zzvrt.Assert(now <= c || cb.IsClosed(), "breaker: never more trial executions in flight than the half-open capacity")
 					zzvrt.Sleep(d)
 					zzvrt.CtrAdd("trials", -1)
 				} else {
@@ -459,7 +501,16 @@ func ZZ_S15a_Async() {
 	default:
 		res = ex.RunWithExecutionAsync(func(e failsafe.Execution[int]) error { _, err := f(); return err })
 	}
+	cancelling := zzvrt.Choose("with-cancel", 2) == 1
+	if cancelling {
+		go func() {
+			res.Cancel()
+		}()
+	}
 	readers := zzvrt.Param("readers", 2)
+	if cancelling {
+		readers = 1
+	}
 	for i := 0; i < readers; i++ {
 		k := i
 		go func() {
@@ -494,6 +545,12 @@ func ZZ_S15a_Async() {
 	for k := 0; k < readers; k++ {
 		zzvrt.Assert(zzvrt.CellGet(idx("gotV", k)) == int64(v), "async: all readers see the same result")
 		zzvrt.Assert(zzvrt.CellGet(idx("gotE", k)) == b2i(err != nil), "async: all readers see the same error")
+	}
+	if cancelling {
+		zzvrt.Assert(zzvrt.CtrGet("onDone") == 1, "events: exactly one OnDone per execution")
+		zzvrt.Assert(zzvrt.Live() == 0, "leak: the async runner goroutine has finished")
+		zzvrt.Reach("async-cancel-done")
+		return
 	}
 	// the equivalent synchronous execution
 	sv, serr := failsafe.NewExecutor[int](ps...).Get(mk("syncCalls"))
@@ -583,4 +640,117 @@ func ZZ_S14b_HedgeInner() {
 	})
 	zzvrt.Quiesce()
 	zzvrt.Reach("hedge-inner-done")
+}
+
+// ---------------------------------------------------------------------------------------------
+// S08c: cancellation of a hedged execution (context cancel at a symbolic instant): cooperating
+// attempts return on cancellation, the caller gets context.Canceled (or the completed result) and
+// the execution does not wait out the remaining hedge delay.
+func ZZ_S08c_CancelHedge() {
+	D := symDur("hedgeDelay", 1, 30)
+	c := symDur("cancelAt", 0, 30)
+	matching := zzvrt.Choose("cancel-conditions-match", 2) == 1
+	b := hedgepolicy.BuilderWithDelay[int](D).WithMaxHedges(1)
+	if !matching {
+		b = b.CancelOnResult(12345) // nothing the attempts produce matches: a result is accepted only when all attempts finished
+	}
+	hp := b.Build()
+	ctx, cancel := context.WithCancel(context.Background())
+	go func() {
+		zzvrt.Sleep(c)
+		zzvrt.CellSet("firedAt", zzvrt.Now())
+		cancel()
+		zzvrt.CtrAdd("fired", 1)
+	}()
+	_, err := failsafe.NewExecutor[int](hp).WithContext(ctx).GetWithExecution(func(e failsafe.Execution[int]) (int, error) {
+		zzvrt.CtrAdd("starts", 1)
+		if zzvrt.CtrGet("fired") == 1 {
+			zzvrt.CtrAdd("startsAfterCancel", 1)
+		}
+		<-e.Canceled() // cooperating: returns as soon as it is cancelled
+		return 0, errA
+	})
+	end := zzvrt.Now()
+	zzvrt.Quiesce()
+	zzvrt.Assert(errors.Is(err, context.Canceled), "cancel: a cancelled hedged execution reports context.Canceled")
+	zzvrt.Assert(zzvrt.CtrGet("startsAfterCancel") <= 1, "cancel: at most one further attempt starts after the cancellation")
+	zzvrt.Assert(end == zzvrt.CellGet("firedAt"), "cancel: a hedged execution completes without waiting out the remaining hedge delay")
+	zzvrt.Assert(zzvrt.Live() == 0, "leak: no library goroutine left after a cancelled hedged execution")
+	zzvrt.Assert(zzvrt.ArmedTimers() == 0, "leak: no library timer left armed after a cancelled hedged execution")
+	zzvrt.Reach("cancel-hedge-done")
+}
+
+// ---------------------------------------------------------------------------------------------
+// S17b: Retry(Hedge(fn)): statistics with retries and hedges in one execution.
+func ZZ_S17b_RetryHedgeStats() {
+	D := symDur("hedgeDelay", 1, 30)
+	d0 := symDur("d0", 0, 30)
+	hp := hedgepolicy.BuilderWithDelay[int](D).OnHedge(func(e failsafe.ExecutionEvent[int]) { zzvrt.CtrAdd("hedgesStarted", 1) }).Build()
+	rp := retrypolicy.Builder[int]().WithMaxRetries(1).OnRetry(func(e failsafe.ExecutionEvent[int]) {
+		zzvrt.CtrAdd("retriesStarted", 1)
+		zzvrt.Assert(e.Retries() == zzvrt.CtrGet("retriesStarted"), "stats: Retries counts exactly the retries started (in OnRetry)")
+		zzvrt.Assert(e.Attempts() == 1+e.Retries()+e.Hedges(), "stats: Attempts = 1 + retries + hedges (in OnRetry)")
+	}).Build()
+	failsafe.NewExecutor[int](rp, hp).OnDone(func(e failsafe.ExecutionDoneEvent[int]) {
+		zzvrt.Assert(e.Attempts() == 1+e.Retries()+e.Hedges(), "stats: Attempts = 1 + retries + hedges (in OnDone)")
+		zzvrt.Assert(e.Retries() == zzvrt.CtrGet("retriesStarted"), "stats: Retries counts exactly the retries started (in OnDone)")
+		zzvrt.Assert(e.Hedges() == zzvrt.CtrGet("hedgesStarted"), "stats: Hedges counts exactly the hedges started (in OnDone)")
+		zzvrt.Assert(e.Executions() <= zzvrt.CtrGet("completed"), "stats: Executions never exceeds the completed invocations (in OnDone)")
+	}).GetWithExecution(func(e failsafe.Execution[int]) (int, error) {
+		// (the counters are read one by one while other attempts may be starting, so the identity is only
+		// asserted where no attempt can start concurrently: in OnRetry and OnDone)
+		zzvrt.Assert(e.Retries() <= 1, "stats: Retries never exceeds the retries the policy allows")
+		zzvrt.Assert(e.Hedges() <= 2, "stats: Hedges never exceeds one hedge per retry round")
+		if !e.IsHedge() {
+			zzvrt.Sleep(d0)
+		}
+		zzvrt.CtrAdd("completed", 1)
+		return 0, errA
+	})
+	zzvrt.Quiesce()
+	zzvrt.Reach("retry-hedge-stats-done")
+}
+
+// S06b: a standalone AcquirePermit(ctx) caller cancelled while waiting on a full bulkhead never
+// returns a permit it did not get.
+func ZZ_S06b_StandaloneWaiter() {
+	bh := bulkhead.With[int](1)
+	d := symDur("holderDuration", 1, 30)
+	c := symDur("cancelAt", 0, 30)
+	late := symDur("lateArrival", 0, 30)
+	ctx, cancel := context.WithCancel(context.Background())
+	first := failsafe.NewExecutor[int](bh).GetWithExecutionAsync(func(e failsafe.Execution[int]) (int, error) {
+		now := zzvrt.CtrAdd("inflight", 1)
+		zzvrt.Assert(now <= 1, "bulkhead: never more than maxConcurrency executions in progress (standalone permits included)")
+		zzvrt.Sleep(d)
+		zzvrt.CtrAdd("inflight", -1)
+		return 1, nil
+	})
+	go func() { // standalone waiter
+		if bh.AcquirePermit(ctx) == nil {
+			now := zzvrt.CtrAdd("inflight", 1)
+			zzvrt.Assert(now <= 1, "bulkhead: never more than maxConcurrency executions in progress (standalone permits included)")
+			zzvrt.CtrAdd("inflight", -1)
+			bh.ReleasePermit()
+		}
+		zzvrt.CtrAdd("waiterDone", 1)
+	}()
+	go func() {
+		zzvrt.Sleep(c)
+		cancel()
+	}()
+	zzvrt.Sleep(late)
+	failsafe.NewExecutor[int](bh).GetWithExecution(func(e failsafe.Execution[int]) (int, error) {
+		now := zzvrt.CtrAdd("inflight", 1)
+		zzvrt.Assert(now <= 1, "bulkhead: never more than maxConcurrency executions in progress (standalone permits included)")
+		zzvrt.CtrAdd("inflight", -1)
+		return 2, nil
+	})
+	first.Get()
+	cancel()
+	zzvrt.Quiesce()
+	zzvrt.Assert(zzvrt.CtrGet("waiterDone") == 1, "bulkhead: the standalone waiter returns")
+	zzvrt.Assert(bh.TryAcquirePermit(), "bulkhead: after all executions finish exactly maxConcurrency permits are available again")
+	zzvrt.Assert(!bh.TryAcquirePermit(), "bulkhead: after all executions finish exactly maxConcurrency permits are available again")
+	zzvrt.Reach("standalone-waiter-done")
 }
